@@ -877,6 +877,20 @@ def run(ctx, out):
     ]
     bad = []
 
+    if getattr(ctx, "replay", None):
+        # ./check C17 --replay <file>: run exactly that history again and say what it shows now
+        import json
+        rp = json.load(open(ctx.replay))
+        res = check_script((binp, rp["script"], "replay", False, True))
+        cov["traces_validated_against_impl"] = 1
+        cov["evaluations"] = res["evals"]
+        cov["replayed"] = ctx.replay
+        if res["diff"] or res["monitor"] or res["crash"]:
+            decide(binp, ctx, out, res, "replay", totals)
+        else:
+            out.notes.append("the replayed history no longer shows a disagreement or a property failure")
+        return
+
     def account(res, family):
         cov["traces_validated_against_impl"] += 1
         cov["evaluations"] += res["evals"]
